@@ -21,7 +21,7 @@ MANIFEST = {
                 "(any value >= what the method needs: every theorem is for ALL capacity policies, the correspondence run feeds the model the "
                 "capacity the implementation reports after each op, so a changed growth policy does not break the tie while every branch "
                 "decision still follows the code) (constructors, destructor, attach, operator=, assign, both prepend/append overloads "
-                "incl. a.prepend(a)/a.append(a)/a=a and a.prepend(pointer into a's own bytes), resize, reserve, removeFront/Back, clear, swap, "
+                "incl. a.prepend(a)/a.append(a)/a=a and a.prepend/append/assign((const byte*)a + off, n) with a sub-range of a's own bytes, resize, reserve, removeFront/Back, clear, swap, "
                 "free).  The model is tied to the current Buffer.hpp on every run: identical op lines are executed by a harness built from the "
                 "current sources (fresh memory poisoned, attached ranges and data arguments handed out as exactly sized heap blocks so that "
                 "ASan sees any access outside them, attached blocks compared with their source after every op) and by the compiled model; "
@@ -31,9 +31,10 @@ MANIFEST = {
                 "implementation's output.  Evidence lists how often every branch of Buffer.hpp was taken.",
         "note": "Trusted: Lean kernel + propext/Classical.choice/Quot.sound; the hand translation of Buffer.hpp into Model.lean (validated "
                 "by the correspondence run, not proved).  Modelled rather than verified: memory is one checked block per Buffer object held by "
-                "value plus the allocation ledger (ids are never reused; the content of a deleted block is simply unreachable).  Data "
-                "arguments passed as (pointer, size) to append/assign are assumed not to point into the object's own block (Buffer arguments may "
-                "be the object itself and prepend may take a sub-range of the own bytes - proved).  Attached memory is not changed by the "
+                "value plus the allocation ledger (ids are never reused; the content of a deleted block is simply unreachable).  A (pointer, "
+                "size) argument is either memory outside the object's block (modelled by value) or a sub-range of the object's own exposed "
+                "bytes (ops prependsub/appendsub/assignsub - proved; Buffer arguments may be the object itself - proved); a pointer into the "
+                "own block but outside [bufferStart, bufferEnd] (head-room / spare capacity) is not a meaningful argument and not modelled.  Attached memory is not changed by the "
                 "caller while attached.  Allocation never fails; usize arithmetic does not wrap (Nat).  size(), capacity(), isEmpty() are "
                 "exercised by the correspondence run only.  No theorem is partial.",
         "design_ref": "DESIGN.md 3/C08",
@@ -119,6 +120,12 @@ def reference(hist, impl_out):
         elif op == "prependsub":
             off, n = int(t[2]), int(t[3])
             q[v] = q[v][off:off + n] + q[v]
+        elif op == "appendsub":     # as if the bytes had been copied first
+            off, n = int(t[2]), int(t[3])
+            q[v] = q[v] + q[v][off:off + n]
+        elif op == "assignsub":
+            off, n = int(t[2]), int(t[3])
+            q[v] = q[v][off:off + n]
         elif op == "append":
             q[v] = q[v] + unhex(t[2])
         elif op == "appendb":
@@ -208,7 +215,10 @@ def gen_history(rng, length, attached_regions=True, big=False):
         elif k < 0.765:
             off = rng.randrange(ln[v] + 2)
             m = min(n, 300)
-            op = f"prependsub {v} {off} {m}"; ln[v] += min(m, max(0, ln[v] - min(off, ln[v])))
+            sub = min(m, max(0, ln[v] - min(off, ln[v])))
+            kind = rng.choice(["prependsub", "appendsub", "appendsub", "assignsub"])
+            op = f"{kind} {v} {off} {m}"
+            ln[v] = sub if kind == "assignsub" else ln[v] + sub
         elif k < 0.78: op = f"swap {v} {w}"; ln[v], ln[w] = ln[w], ln[v]; last_removed[v], last_removed[w] = last_removed[w], last_removed[v]
         elif k < 0.81: op = f"clear {v}"; ln[v] = 0
         elif k < 0.84: op = f"free {v}"; ln[v] = 0
@@ -262,7 +272,7 @@ SMALL_OPS = [
     "append 0 515253", "resize 0 0", "resize 0 1", "resize 0 4", "resize 0 5", "removeFront 0 1", "removeFront 0 3",
     "removeBack 0 1", "removeBack 0 3", "reserve 0 4", "clear 0", "free 0", "swap 0 1", "assignb 0 1", "assignb 0 0",
     "appendb 0 1", "appendb 0 0", "prependb 0 1", "prependb 0 0", "copy 1 0", "new 0", "eq 0 1",
-    "prependsub 0 1 1", "prependsub 0 0 2",
+    "prependsub 0 1 1", "prependsub 0 0 2", "appendsub 0 1 1", "appendsub 0 0 2", "assignsub 0 1 2",
 ]
 
 
@@ -285,7 +295,8 @@ def boundary_family(maxcap):
         for k in range(cap + 2):
             for r in range(k + 2):
                 pre = [f"newcap 0 {cap}", f"append 0 {hexs(pat[:k])}", f"removeFront 0 {r}"]
-                tails = ["appendb 0 0", "prependb 0 0", "prependsub 0 1 1", "prependsub 0 0 1", "prependsub 0 1 9", "assignb 0 0", "clear 0", "swap 0 1", "copy 1 0", "appendb 1 0", "prependb 1 0"]
+                tails = ["appendb 0 0", "prependb 0 0", "prependsub 0 1 1", "prependsub 0 0 1", "prependsub 0 1 9", "appendsub 0 1 1",
+                         "appendsub 0 0 1", "appendsub 0 1 9", "appendsub 0 0 9", "assignsub 0 1 1", "assignsub 0 1 9", "assignb 0 0", "clear 0", "swap 0 1", "copy 1 0", "appendb 1 0", "prependb 1 0"]
                 for n in range(cap + 3):
                     d = hexs([0x41 + i for i in range(n)])
                     tails += [f"resize 0 {n}", f"append 0 {d}", f"prepend 0 {d}", f"assign 0 {d}", f"removeBack 0 {n}",
@@ -381,6 +392,12 @@ def branch_stats(hist, impl_out, cnt):
         elif op == "prependsub":
             off = min(int(t[2]), size)
             prepend(b, min(int(t[3]), size - off), "prependsub", True)
+        elif op == "appendsub":
+            off = min(int(t[2]), size)
+            resize(b, size + min(int(t[3]), size - off), "appendsub")
+        elif op == "assignsub":
+            off = min(int(t[2]), size)
+            assign(b, min(int(t[3]), size - off), "assignsub")
         elif op == "append": resize(b, size + dl, "append")
         elif op == "appendb": resize(b, size + osz, "appendb.self" if v == w else "appendb")
         elif op == "resize": resize(b, int(t[2]), "resize")
@@ -422,6 +439,7 @@ def branch_stats(hist, impl_out, cnt):
 
 
 CAP_OPS = {"new", "newcap", "newdata", "copy", "attach", "assignb", "assign", "prepend", "prependb", "prependsub",
+           "appendsub", "assignsub",
            "append", "appendb", "resize", "removeFront", "removeBack", "reserve", "clear", "free"}
 
 
@@ -576,7 +594,7 @@ def histories_for(ctx):
 def check(ctx):
     ctx.assumptions += [
         "memory model of the Lean model: each Buffer holds its allocation / its attached range as a separate checked block; every access is validated against its extent and, for owned blocks, against the allocation ledger (block ids + live set; new/delete[] in C++ order)",
-        "data arguments given by (pointer, size) do not alias the buffer's own storage (Buffer arguments may be the buffer itself: proved)",
+        "data arguments given by (pointer, size) are outside the buffer's block or a sub-range of its own exposed bytes (both proved); pointers into head-room / spare capacity are not modelled",
         "allocation never fails",
     ]
     proof_ok = C.proof_stage(ctx, PROPS, [DRIVER], leanchecker=(ctx.tier == "thorough"))
